@@ -115,6 +115,18 @@ let lfun_of s = match String.split_on_char ':' s with
         f_result = (res = "1") }
   | _ -> failwith "lfun"
 
+(* python dispatch: overloads "fmts:defaults;..." ; positional tags ; keywords "idx=tag,..." (idx '-' = unknown name) *)
+let pfmt_of = function 'i' -> FInt | 'd' -> FDouble | 'b' -> FBool | _ -> FStr
+let ptag_of = function 'I' -> PInt | 'F' -> PFloat | 'B' -> PBool | _ -> PStr
+let pfun_of s = match String.split_on_char ':' s with
+  | [fm; dfl] -> List.map2 (fun f d -> { pp_fmt = pfmt_of f; pp_default = (d = '1') }) (chars fm) (chars dfl)
+  | _ -> failwith "pfun"
+let kws_of s = if s = "-" || s = "" then [] else
+  List.map (fun it -> match String.split_on_char '=' it with
+    | [k; t] -> ((if k = "-" then None else Some (nat_of_int (int_of_string k))), ptag_of t.[0])
+    | _ -> failwith "kw") (String.split_on_char ',' s)
+let show_src = function SPos i -> "P" ^ string_of_int (int_of_nat i) | SKw j -> "K" ^ string_of_int (int_of_nat j) | SUninit -> "U"
+
 let handle fields =
   match fields with
   | ["wc"; ll; ind; sp; ct; line] ->
@@ -178,6 +190,14 @@ let handle fields =
                string_of_int (int_of_nat c.c_fun) ^ ":" ^ string_of_int (List.length c.c_in) ^ ":" ^
                String.concat "," (List.map (fun i -> string_of_int (int_of_nat i)) ix)) cs)
            ^ "|" ^ string_of_int (int_of_nat nres))
+  | ["py"; ovs; pos; kws] ->
+      (match py_dispatch (List.map pfun_of (String.split_on_char ';' ovs))
+               { pc_pos = List.map ptag_of (chars pos); pc_kws = kws_of kws } with
+       | None -> "NONE"
+       | Some (i, PTypeError) -> "TypeError"
+       | Some (i, PValueError) -> "ValueError"
+       | Some (i, PCalled (n, srcs)) ->
+           "CALL " ^ string_of_int (int_of_nat i) ^ " " ^ string_of_int (int_of_nat n) ^ " " ^ String.concat "," (List.map show_src srcs))
   | ["lstrip"; s] -> field_of_ustr (lstrip (ustr_of_field s))
   | ["rstrip"; s] -> field_of_ustr (rstrip (ustr_of_field s))
   | _ -> "BADCMD"
